@@ -156,4 +156,3 @@ func (e *Enum) Table(elem reflect.Type, max int) [][]*Term {
 	e.tables[key] = tab
 	return tab
 }
-
